@@ -587,6 +587,14 @@ func (e *Engine) registerModels() {
 		}
 		return in.tt.BV(64, uint64(int64(strings.LastIndex(s, sub))))
 	}
+	m["strings.Contains"] = func(in *Interp, fn *ssa.Function, a []Value) Value {
+		s, ok1 := a[0].(Str).concrete()
+		sub, ok2 := a[1].(Str).concrete()
+		if !ok1 || !ok2 {
+			panic(unsupported("strings.Contains on symbolic strings"))
+		}
+		return in.tt.Bool(strings.Contains(s, sub))
+	}
 	m["strings.HasPrefix"] = func(in *Interp, fn *ssa.Function, a []Value) Value {
 		s := a[0].(Str)
 		pre := a[1].(Str)
